@@ -207,17 +207,14 @@ func run(r *core.Run) {
 		r.Check(out != core.Panic, "panic:"+op, what+" panics: "+firstLine(core.LastPanic))
 		r.Check(out != "timeout" && out != "oom", "hang:"+op, what+" does not terminate / exhausts memory: "+out)
 	}
-<<<<<<< HEAD
 	// 0. regression corpus + boundary table: MySQL version comments (`/*!NNNNN text */`), which the tokenizer
 	// of Acra's own SQL parser hands to ExtractMysqlComment – on every path that parses client SQL
 	versionComments(r, guard)
-=======
 	// 0. the SQL tokenizer against its Lean model (proof level; see tokens.go)
 	runTokens(r)
 	if os.Getenv("VERIF_C14_ONLY") == "tokens" { // development aid: only the tokenizer slice
 		return
 	}
->>>>>>> wt-btok
 	// 1. SQL
 	var sql [][]byte
 	for _, s := range sqlSeeds {
